@@ -9,10 +9,11 @@ func initTimer(t *time.Timer, timeout time.Duration) *time.Timer {
 	if t == nil {
 		return time.NewTimer(timeout)
 	}
-	if t.Reset(timeout) {
-		// developer sanity-check
-		panic("BUG: active timer trapped into initTimer()")
-	}
+	// Reset may report a timer as active although it was stopped before it
+	// came here: Stop suppresses a send that is already in progress, and the
+	// runtime still counts that send. With the timer channels of go 1.23 and
+	// later no stale value can be left behind either way.
+	t.Reset(timeout)
 	return t
 }
 
